@@ -37,6 +37,14 @@ impl StateMachine<'_> {
         // proposal for more robust parsing logic.
 
         self.painter.paint_buffered_minus_and_plus_lines();
+        // The header of the previous file section may still be pending (mode change only,
+        // binary or empty file): it is normally written at the next "diff" line, but these
+        // lines are not preceded by one.
+        self.painter.emit()?;
+        self.handle_pending_line_with_diff_name()?;
+        // (and it must not be written once more at the next "diff" line)
+        self.handled_diff_header_header_line_file_pair
+            .clone_from(&self.current_file_pair);
         self.state = to_state;
         if self.should_handle() {
             self.painter.emit()?;
